@@ -120,6 +120,11 @@ impl Tokenizer
 	fn tokenize_line(&mut self, line: &str) -> STDRESULT {
 		self.columns = 1;
 		self.tokenized_line = Vec::new();
+		// the stream holds negative ASCII: any other byte would come back as another character, a column or a line end
+		if !line.is_ascii() {
+			error!("Merlin line contains characters that are not ASCII");
+			return Err(Box::new(lang::Error::Syntax));
+		}
 		let tree = self.parser.parse(line, &self.symbols)?;
 		self.walk(&tree)?;
 		if self.tokenized_line.len()>126 {
